@@ -282,6 +282,16 @@ def handle (cfg : Cfg) (st : St) (line : String) : St × String :=
   -- C13
   | ["mk", hex] => (st, outExcept (fun w => "str " ++ (w : Seq).toString) (construct pyOps (.str (unhex6 hex.toList))))
   | ["mk"] => (st, outExcept (fun w => "str " ++ (w : Seq).toString) (construct pyOps (.str [])))
+  -- mkcwd <hex> <query>: the same construction, made while the working directory holds files named like the string (no effect)
+  | "mkcwd" :: hex :: name :: args =>
+    match construct pyOps (.str (unhex6 hex.toList)) with
+    | .error e => (st, outExc e)
+    | .ok w => (st, seqQuery cfg name w args)
+  -- backendq <hex> <query>: the backend object built directly from (lower / mixed case) residue letters
+  | "backendq" :: hex :: name :: args =>
+    match construct pyOps (.str (unhex6 hex.toList)) with
+    | .error e => (st, outExc e)
+    | .ok w => (st, seqQuery cfg name w args)
   | "mkother" :: _ => (st, outExcept (fun w => "str " ++ (w : Seq).toString) (construct pyOps .other))
   | "mkq" :: hex :: name :: args =>
     match construct pyOps (.str (unhex6 hex.toList)) with
@@ -301,6 +311,10 @@ def handle (cfg : Cfg) (st : St) (line : String) : St × String :=
       | some w => (st, seqQuery cfg name w args)
   -- stateful objects
   -- shufall j i: a shuffle of object i with every position frozen = a NEW object holding the same sequence (no phosphosites, default palette)
+  | ["copyobj", j, i] =>
+    match st.get i.toNat! with
+    | none => (st, "bad-op noobj")
+    | some o => (st.set j.toNat! o, "ok")
   | ["shufall", j, i] =>
     match st.get i.toNat! with
     | none => (st, "bad-op noobj")
